@@ -1203,10 +1203,12 @@ func TestC26(t *testing.T) {
 	run := mon.Start(t, "C26", "exploration",
 		"one history per synctest bubble: 1-8 Receives (SUBSCRIBE / PSUBSCRIBE / SSUBSCRIBE) with overlapping channel, pattern and shard sets on the shared connection, optionally a dedicated client running Receive or SetPubSubHooks; 2-3 publishers of numbered messages, VERIF.ECHO traffic on the same connections, "+
 			"explicit / multi-channel / wildcard (P|S)UNSUBSCRIBE through client.Do and through the dedicated client, server-forced unsubscribes, context cancellation and deadlines, server-side kills, Receives on fresh channels started while messages flow, release of the dedicated client, final cancel or Close; RESP3 and AlwaysRESP2, ring and flowbuffer, chunked writes, retry on/off; "+
+			"plus constructed backlog histories (backlog_test.go): a Receive whose consumer stalls until its 16-slot buffer is full and the connection's reader waits inside subs.Publish (checked in a goroutine dump), next to 0-2 Receives that keep up and pending VERIF.ECHO commands, ended by cancel, by deadline, or by cancel while its SUBSCRIBE is still in flight (shared and dedicated client, all three kinds); "+
 			"plus the deterministic wedge probe (k1_test.go) at 1/16/17/20 early messages and 12 child-process histories of SetPubSubHooks on a connection that is already lost (lost_test.go); a case = one Receive (api, command, RESP, #channels, return class, causes present, overlap with another Receive, delivered bucket, segments) or one hooks session")
 	defer run.Finish()
 	run.Assume("fakeredis logs a push in the order it reaches the wire; every published payload is unique, so a delivered message identifies one wire frame",
 		"completeness is demanded up to the unsubscribe notification (wire order) or, for abrupt ends (cancel, Close, kill), up to the last settle point of the bubble before the end; beyond that only 'contiguous, in order, no duplicates, nothing foreign' is demanded",
+		"a bubble in which every goroutine is blocked and at least one of them waits for a sync.Mutex / sync.RWMutex (two identical consecutive goroutine dumps) can never move again: synctest neither advances its clock nor reports a deadlock there, the driver reports it as a hang",
 		"Receives whose channels are already delivering on the connection are only set up in quiet phases (known finding: pipe wedged by early messages); the wedge itself is probed separately")
 	n := run.N(300, 6000)
 	rng := run.Rand("scenarios")
